@@ -59,6 +59,12 @@ iinfo = _rnp.iinfo; finfo = _rnp.finfo
 def result_type(*a):
     return DT(_rnp.result_type(*[x.dtype if isinstance(x, ndarray) else x for x in a]))
 
+def _undt(x):
+    if isinstance(x, ndarray): return x.dtype if not isinstance(x.dtype, DT) else x.dtype.dtype
+    return x.dtype if isinstance(x, DT) else x
+def can_cast(a, b, casting='safe'): return bool(_rnp.can_cast(_undt(a), _undt(b), casting))
+def promote_types(a, b): return DT(_rnp.promote_types(_undt(a), _undt(b)))
+
 # --------------------------------------------------------------------------- index keys / memo
 def _k1(k):
     if isinstance(k, (int, _rnp.integer)): return int(k)
@@ -1157,6 +1163,19 @@ def mean(a, axis=None, dtype=None):
     n = 1
     for ax in axes: n = n * a.shape[ax]
     return s / n
+def nanmean(a, axis=None, dtype=None):
+    """inputs are finite reals in the model (no NaN flags on symbolic inputs): nanmean == mean"""
+    return mean(a, axis=axis, dtype=dtype)
+def nanstd(a, axis=None, dtype=None):
+    a = asarray(a); dt = _rnp.dtype(dtype) if dtype is not None else (a.dtype if a.dtype.kind == 'f' else _rnp.dtype('float64'))
+    m = mean(a, axis=axis, dtype=dt)
+    fa = a.snapshot(); axes = _axis_list(a, axis)
+    if len(axes) != 1: raise NeedsContract('nanstd over several axes')
+    ax = axes[0]
+    fm = m.snapshot() if isinstance(m, ndarray) else None
+    dev = ndarray.fresh(a.shape, lambda i: (lambda d: d * d)(core.cast(fa(i), dt) - (fm(tuple(i[:ax]) + tuple(i[ax + 1:])) if fm is not None else m)), dt)
+    return sqrt(mean(dev, axis=ax, dtype=dt))
+std = nanstd
 def max(a, axis=None):
     a = asarray(a); return _fold(a, _axis_list(a, axis), None, lambda x, y: Ite(x >= y, x, y), None)
 def min(a, axis=None):
